@@ -400,7 +400,32 @@ Fixpoint nodupN (l : list N) (seen : list N) : list N :=
 Definition outgoing (es : list edge) (n : N) : list N :=
   nodupN (map snd (filter (fun e => N.eqb (fst e) n) es)) [].
 
-Definition unionN (a b : list N) : list N := a ++ filter (fun x => negb (memN x a)) (nodupN b []).
+(* Python sets of nodes (the values of predecessor_map and of the queue, and `seen`) are kept as strictly
+   increasing lists, so that |=, - and len() cost what they cost on hash sets *)
+Fixpoint insertN (x : N) (l : list N) : list N :=
+  match l with
+  | [] => [x]
+  | y :: t => if N.ltb x y then x :: l else if N.eqb x y then l else y :: insertN x t
+  end.
+Fixpoint unionN (a b : list N) {struct a} : list N :=
+  let fix aux (b : list N) {struct b} : list N :=
+    match a, b with
+    | [], _ => b
+    | _, [] => a
+    | x :: a', y :: b' =>
+      if N.ltb x y then x :: unionN a' b else if N.eqb x y then x :: unionN a' b' else y :: aux b'
+    end in
+  aux b.
+(* a - b *)
+Fixpoint diffN (a b : list N) {struct a} : list N :=
+  let fix aux (b : list N) {struct b} : list N :=
+    match a, b with
+    | [], _ => []
+    | _, [] => a
+    | x :: a', y :: b' =>
+      if N.ltb x y then x :: diffN a' b else if N.eqb x y then diffN a' b' else aux b'
+    end in
+  aux b.
 Definition removeN (x : N) (l : list N) : list N := filter (fun y => negb (N.eqb x y)) l.
 Fixpoint set_assoc {A} (k : N) (v : A) (l : list (N * A)) : list (N * A) :=
   match l with
@@ -489,7 +514,7 @@ Definition enqueue (pm : list (N * list N)) (seen : list N) (st : queue * nat) (
   let (q, err) := st in
   if has_key n q then (q, err)
   else match assocN n pm with
-       | Some p => (q ++ [(n, filter (fun x => negb (memN x seen)) p)], err)
+       | Some p => (q ++ [(n, diffN p seen)], err)
        | None => (q, 12)                                         (* KeyError predecessor_map[n] *)
        end.
 
@@ -498,7 +523,7 @@ Definition ostep (pick : queue -> N) (pm : list (N * list N)) (es : list edge) (
   let q1 := del_key node (o_queue s) in
   if memN node (o_seen s) then mkO q1 (o_order s) (o_seen s) (o_err s)
   else
-    let seen' := node :: o_seen s in
+    let seen' := insertN node (o_seen s) in
     let q2 := map (fun e => (fst e, removeN node (snd e))) q1 in
     let (q3, err) := fold_left (enqueue pm seen') (outgoing es node) (q2, o_err s) in
     mkO q3 (node :: o_order s) seen' err.
@@ -602,3 +627,26 @@ Fixpoint has_dup (l : list N) : bool :=
 
 (* the instructions of all blocks, by index, in block order *)
 Definition block_instrs (bs : list block) : list N := map idx (concat (map code bs)).
+
+(* ---- "simple" merges: every END_ASYNC_FOR block is merged into exactly one loop-back block ---------- *)
+Fixpoint nodup_natb (l : list nat) : bool :=
+  match l with
+  | [] => true
+  | x :: t => negb (existsb (Nat.eqb x) t) && nodup_natb t
+  end.
+
+Definition simple_mergesb (ml : list (nat * nat)) : bool :=
+  nodup_natb (map fst ml) && nodup_natb (map snd ml) &&
+  forallb (fun x => negb (existsb (Nat.eqb x) (map snd ml))) (map fst ml).
+
+(* the merge list _remove_jmp_to_get_anext_and_merge would compute for this opcode list is simple *)
+Definition merge_simpleb (ops : list instr) : bool :=
+  match split_bytecode true ops with
+  | Ok (bs0, _) =>
+    let bs1 := remove_jump_back_block ops bs0 in
+    match merge_list_of bs1 bs1 0 with
+    | Ok ml => simple_mergesb ml
+    | Err _ => false
+    end
+  | Err _ => false
+  end.
